@@ -562,6 +562,11 @@ func (e *GRPCEndpointExpr) hasAnyType(a *AttributeExpr, typ string, seen ...map[
 			if actual.KeyType.Type == Any {
 				verr.Add(e, "Map key type is Any type which is not supported in gRPC")
 			}
+			switch actual.KeyType.Type.Kind() {
+			case Float32Kind, Float64Kind, BytesKind:
+				// protocol buffer map keys must be of an integral, boolean or string type
+				verr.Add(e, "Map key type is %s which is not supported in gRPC: protocol buffer map keys must be integers, booleans or strings", actual.KeyType.Type.Name())
+			}
 		} else {
 			verr.Merge(e.hasAnyType(actual.KeyType, typ, seen...))
 		}
